@@ -134,6 +134,26 @@ def spec_job(cfg):
         except Exception as e:
             redescs, eq = [], type(e).__name__ + ":" + str(e)[:100]
         events.append({"op": "spec", "descs": descs, "redescs": redescs, "eq": eq})
+        # the same round trip after the original was *used* (counted, which makes verification strategies with a pack of their
+        # own search for their specification): equality must not depend on the history of the objects compared
+        try:
+            from ..session import scripted_time
+            import random as _random
+
+            _random.seed(len(descs))
+            with scripted_time():
+                for n in range(5):
+                    try:
+                        spec.count_objects_of_size(n)
+                    except Exception:
+                        break
+            for r in list(spec.rules_dict.values())[:12]:
+                events.append(rule_event(r, namer))
+            spec3 = CombinatorialSpecification.from_dict(json.loads(json.dumps(spec.to_jsonable())))
+            events.append({"op": "spec", "descs": [serial_desc(r, namer) for r in spec.rules_dict.values()],
+                           "redescs": [serial_desc(r, namer) for r in spec3.rules_dict.values()], "eq": tf(lambda: spec3 == spec)})
+        except Exception as e:
+            events.append({"op": "spec", "descs": descs, "redescs": [], "eq": type(e).__name__ + ":" + str(e)[:100]})
         tid = sc.tid_of(cfg) + "|" + prefix
         ne = [n for c, n in namer.names.items() if not c.is_empty()]
         forms = sorted({e["desc"]["form"] for e in events if e["op"] == "rule"})
@@ -212,6 +232,10 @@ def run(tier: str, seed: int) -> int:
     for pats in (("aa",), ("aa", "bb"), ("aba",)):
         for sch in ("one", "all"):
             cfgs.append(("a", pats, "ab", "s0", "needrev", "forest", sch, True))
+    # verification strategies that count through a pack of their own (their state after use must not show in equality)
+    for pats in (("aa",), ("aba", "bb"), ("aab",)):
+        for pk, fl in (("pv2", "default"), ("pvpack", "default"), ("pvpack", "forest"), ("plain", "default")):
+            cfgs.append(("", pats, "ab", "s0", pk, fl, "all", True))
     cfgs = list(dict.fromkeys(cfgs))
     res = [x for x in pmap(spec_job, cfgs, procs=16, chunk=2) if x]
     serial = [x["serial"] for x in res]
